@@ -618,6 +618,17 @@ func (fr *frame) visit(instr ssa.Instruction) continuation {
 			fr.set(instr, Ptr{O: st.newObj(Zero(t), t)})
 		}
 	case *ssa.MakeSlice:
+		for _, v := range []Value{fr.get(instr.Cap), fr.get(instr.Len)} {
+			if t := asTerm(st, v); !t.IsConst() {
+				t64 := t
+				if t.W < 64 {
+					t64 = term.MkSExt(64, t)
+				}
+				if !st.Branch(term.MkCmp(term.Ule, t64, term.BV(64, 1<<20))) {
+					st.throwRuntime("makeslice: len out of range (or beyond the VM's 2^20 limit)")
+				}
+			}
+		}
 		c := st.asInt(fr.get(instr.Cap), 0, 1<<20)
 		n := st.asInt(fr.get(instr.Len), 0, 1<<20)
 		if n < 0 || c < n || c > 1<<24 {
